@@ -33,10 +33,10 @@ def showObs : Obs → String
   | .unroutable => "unroutable"
   | .nosub => "nosub"
   | .filtered => "filtered"
-  | .scheduled k => s!"sched:{showCall k}"
+  | .scheduled _ => "sched"
   | .ignored => "ignored"
   | .rejected cls => s!"rejected:{cls}"
-  | .called r => s!"called:{DrvPM.showRet r}"
+  | .called k r => s!"called:{showCall k}:{DrvPM.showRet r}"
   | .disabled => "disabled"
 
 def showRVal : RVal → String
@@ -78,6 +78,15 @@ def parseFail (s : String) : Option Oracle :=
   | [i, cls] => i.toNat?.map fun n => failAt n cls
   | _ => none
 
+/-- programs of this component's corpus in addition to `PMF.progOf` (longer steps, so that messages sent at any position
+    find the process inside a step, between steps, waiting, …) -/
+def progOf : String → Prog
+  | "Async6" => fun fn _ _ _ => if fn = 0 then ⟨5, .ret (.cont 1 [] [])⟩ else ⟨4, .ret (.stop (some 3) true)⟩
+  | "WaitAsync4" => fun fn _ _ _ => if fn = 0 then ⟨4, .ret (.wait 1)⟩ else ⟨4, .ret (.stop (some 7) true)⟩
+  | "Failing5" => fun _ _ _ _ => ⟨5, .raise (.user 0)⟩
+  | "Sync4" => fun fn _ _ _ => if fn < 3 then ⟨0, .ret (.cont (fn + 1) [] [])⟩ else ⟨0, .ret (.stop (some 3) true)⟩
+  | name => PMF.progOf name
+
 partial def loop (h : IO.FS.Stream) (O : Oracle) (P : Prog) (c : Comms.Cfg) : IO Unit := do
   let ln ← h.getLine
   if ln.isEmpty then return ()
@@ -90,7 +99,7 @@ partial def loop (h : IO.FS.Stream) (O : Oracle) (P : Prog) (c : Comms.Cfg) : IO
         let c' := create O' name "pid"
         let blank : Comms.Cfg := {}
         IO.println (line blank c' (.ret .none))
-        loop h O' (progOf name) c'
+        loop h O' (DrvComms.progOf name) c'
   | ["end"] => IO.println (endLine c); loop h O P c
   | _ =>
     match parseEv toks with
@@ -100,5 +109,5 @@ partial def loop (h : IO.FS.Stream) (O : Oracle) (P : Prog) (c : Comms.Cfg) : IO
       IO.println (line c c' o)
       loop h O P c'
 
-def main : IO Unit := do loop (← IO.getStdin) allOk (progOf "") {}
+def main : IO Unit := do loop (← IO.getStdin) allOk (PMF.progOf "") {}
 end DrvComms
